@@ -174,6 +174,10 @@ func TestC15(t *testing.T) {
 	evals += mc
 	nontrivial += mn
 	r.Set("multi_record_write_scripts", mc)
+	gc, gn := grpcWriteRetries(r)
+	evals += gc
+	nontrivial += gn
+	r.Set("grpc_write_retry_scripts", gc)
 
 	r.Set("evaluations", evals)
 	r.Set("distinct_nontrivial", nontrivial)
